@@ -588,6 +588,21 @@ func (e *ectx) lawPair(a, b *val) (fs []finding, n int) {
 		if !okIn || in != (a.ns.Cmp(b.ns) == 0) {
 			fs = append(fs, finding{"law:dict-lookup:" + a.Kind, fmt.Sprintf("%s in {%s: 0} is %v (ok=%v); the two are equal by exact nanoseconds: %v [%s; %s] [%s]", bn, an, in, okIn, a.ns.Cmp(b.ns) == 0, a.Desc, b.Desc, e.host)})
 		}
+		if a.ns.Cmp(b.ns) == 0 {
+			// a key entered as one spelling of the value is found and removed under another,
+			// in a table that holds enough other keys to have several buckets
+			n++
+			src := fmt.Sprintf("(lambda d: [%[2]s in d, d.pop(%[2]s, 0), %[1]s in d, len(d), d.setdefault(%[2]s, 2), d.pop(%[1]s, 0), len(d)])(dict([(%[1]s, 1)] + [(i, 0) for i in range(20)]))", an, bn)
+			got := "error"
+			if r := e.eval(src); r.err == nil && r.pan == "" && r.v != nil {
+				got = r.v.String()
+			} else if r.pan != "" {
+				got = "panic: " + r.pan
+			}
+			if got != "[True, 1, False, 20, 2, 2, 20]" {
+				fs = append(fs, finding{"law:dict-insert-delete:" + a.Kind, fmt.Sprintf("%s gives %s, want [True, 1, False, 20, 2, 2, 20] [%s; %s] [%s]", src, got, a.Desc, b.Desc, e.host)})
+			}
+		}
 		if a.Kind == "time" && a.ns.Cmp(b.ns) == 0 {
 			// zone independence of the difference
 			n++
@@ -862,7 +877,7 @@ func runWorker(c *fw.Ctx) *fw.Stats {
 			return true
 		})
 	}
-	level("laws on all ordered pairs: (t+d)-d==t, (t-d)+d==t, (t2-t1)+t1==t2, trichotomy, symmetry, ==>equal hash, dict lookup, zone independence", func() bool {
+	level("laws on all ordered pairs: (t+d)-d==t, (t-d)+d==t, (t2-t1)+t1==t2, trichotomy, symmetry, ==>equal hash, dict lookup, insertion and deletion as a key of a 21-entry dict, zone independence", func() bool {
 		for _, a := range e.vals {
 			for _, b := range e.vals {
 				if !timeLike(a) || !timeLike(b) {
